@@ -95,6 +95,9 @@ class ExprGen:
             return {"Fn::Select": [r.choice([0, 1, "0", "2", 5, "7"]), self.list_expr(d + 1)]}
         if k == 5:
             self.note("Fn::FindInMap")
+            if r.random() < 0.25:
+                # a number / boolean stored in a mapping: returned as stored (Fn::Join renders it with str())
+                return {"Fn::FindInMap": ["Flags", r.choice(["prod", "dev", {"Ref": "Env"}]), r.choice(["Versioning", "Logging", "Public"])]}
             return {"Fn::FindInMap": [r.choice(["RegionMap", "EnvMap", "NoMap"]), r.choice(["eu-west-1", "prod", {"Ref": "AWS::Region"}, {"Ref": "Env"}, "nokey"]), r.choice(["AMI", "Size", "Empty", "nokey"])]}
         if k in (6, 7, 8):
             self.note("Fn::Sub")
